@@ -58,6 +58,9 @@ def gen_history(rng, scn, length=6, p_fault=0.35, p_dry=0.12, p_render=0.08, max
             "fresh_r": rng.random(),
             "obs": rng.choice([None, "rec", "rec", "composite"]),
             "tp": rng.random() < 0.25,
+            "retry": rng.choice([None, None, None, 2, 3]),
+            "scw": rng.choice([None, None, 1, 2]),
+            "slow": rng.choice([0, 0, 0, 0.0003]),
         }
         if st["op"] == "run" and rng.random() < p_fault:
             kind = rng.choice(["cut", "cut", "call", "store"])
@@ -65,9 +68,11 @@ def gen_history(rng, scn, length=6, p_fault=0.35, p_dry=0.12, p_render=0.08, max
                 st["fault"] = {"at": rng.randint(1, 3 * N + 2), "when": rng.choice(["before", "after"]),
                                "mode": rng.choice(["raise", "raise", "dead"])}
             elif kind == "call" and calls:
-                st["fail_calls"] = {str(c): 1 for c in rng.sample(calls, rng.randint(1, min(2, len(calls))))}
+                r_ = st["retry"] or 1
+                st["fail_calls"] = {str(c): rng.randint(1, r_) for c in rng.sample(calls, rng.randint(1, min(2, len(calls))))}
             elif regd:
-                st["fail_stores"] = [[rng.choice(["read", "write", "write", "mtime"]), rng.choice(regd), 1]]
+                r_ = st["retry"] or 1
+                st["fail_stores"] = [[rng.choice(["read", "write", "write", "mtime"]), rng.choice(regd), rng.randint(1, r_)]]
         steps.append(st)
     # end with a fault-free run: the property is about the next *successful* run
     steps.append({"op": "run", "fresh": "none", "out": list(rng.choice(outs)), "W": rng.randint(1, maxW),
@@ -219,7 +224,7 @@ def run_history(task):
     random.seed(task.get("seed", 0) ^ 0xC0FFEE)
     ptraces = []
     info = {"runs": 0, "ok_runs": 0, "failed_runs": 0, "cuts_hit": 0, "unexpected": [], "dry": 0, "renders": 0,
-            "threads_leaked": 0, "max_inflight_over": []}
+            "threads_leaked": 0, "max_inflight_over": [], "c10": [], "retry_runs": 0}
     for st in task["steps"]:
         op = st["op"]
         if op == "upd":
@@ -255,6 +260,11 @@ def run_history(task):
             scheduler=st.get("sched"),
             progress=None,
         )
+        if st.get("retry"):
+            kw["retry"] = st["retry"]
+        if st.get("scw"):
+            kw["stale_check_max_workers"] = st["scw"]
+        U.slow = st.get("slow") or 0.0
         notes, notes2 = [], None
         if st.get("obs"):
             from uberjob.progress import Progress
@@ -340,6 +350,26 @@ def run_history(task):
                 ptraces.append(pt)
         if st.get("tp") and ok and len(tp_calls) != 1:
             info["unexpected"].append({"where": "transform_physical", "exc": f"called {len(tp_calls)} times"})
+        # C10 on the registry path: limits on what executes at once, attempts, eventual success, last exception
+        retry_n = st.get("retry") or 1
+        W_ = st.get("W", 1)
+        if U.max_all_inflight > W_:
+            info["c10"].append(["too_many_inflight", f"{U.max_all_inflight} calls / store operations at once with max_workers={W_}"])
+        if U.max_mt_inflight > (st.get("scw") or W_):
+            info["c10"].append(["too_many_mtime_queries_inflight", f"{U.max_mt_inflight} modified-time queries at once with stale_check_max_workers={st.get('scw') or W_}"])
+        over = {k: v for k, v in U.attempts.items() if v > retry_n}
+        if over:
+            info["c10"].append(["attempts_exceed_retry", f"{sorted(over.items())[:3]} with retry={retry_n}"])
+        recoverable = (not fault and all(j < retry_n for j in (st.get("fail_calls") or {}).values())
+                       and all(c < retry_n for _k, _n, c in (st.get("fail_stores") or [])))
+        missing_src = any(e["e"] == "readfail" and e.get("missing") for e in U.events[mark:])
+        if recoverable and not ok and not missing_src and (st.get("fail_calls") or st.get("fail_stores")):
+            info["c10"].append(["eventual_success_not_honoured", f"every injected failure was recoverable within retry={retry_n} but run raised {exc!r:.200}"])
+        if not ok and retry_n > 1:
+            cause = getattr(exc, "__cause__", None)
+            if any(cause is x for x in U.injected) and not any(cause is x for x in U.last_exc.values()):
+                info["c10"].append(["reported_exception_not_last_attempt", f"cause {cause!r:.200} is not the exception of the last attempt"])
+        info["retry_runs"] += 1 if retry_n > 1 else 0
         if U.cut_hit:
             info["cuts_hit"] += 1
         if U.max_inflight > st.get("W", 1):
